@@ -9,7 +9,7 @@ import ast
 import z3
 from pyvc.runner import unit, run_function
 from pyvc.values import *
-from pyvc.engine import State
+from pyvc.engine import State, _b_type
 from .common import *
 
 COMMON, ITERM, KITTY = "image/common.py", "image/iterm2.py", "image/kitty.py"
@@ -135,24 +135,43 @@ def u_native_anim(ctx):
     s0.env[fget.args.args[0].arg] = cls_a
     for v, s in eng.ev(fget.body, s0):
         eng.oblige("get-reads-the-single-global-cell", s, Eq(v, cur), kind="post")
-    for label, val, ok in (("valid", z3.Int("new_limit"), True), ("zero", z3.IntVal(0), False), ("str", "5", False)):
-        s0 = st.fork()
-        if ok:
-            s0.pc.append(val > 0)
-        s0.env.update({fset.args.args[0].arg: cls_a, fset.args.args[1].arg: val})
-        eng.label = f"C20/native_anim_max_bytes.set[{label}]"
-        for kind, rv, s in run_function(eng, fset, s0):
-            cell = s.H(meta)["_native_anim_max_bytes"]
-            own_clean = "_native_anim_max_bytes" not in s.H(cls_a)
+    # the class used for access may be an instance of ITerm2ImageMeta itself or of a metaclass DERIVED from it (type(cls) is then
+    # not the metaclass that holds the cell): the one global cell is the same in both cases
+    meta_sub = st.new("attrobj", {"@inherit": {"_native_anim_max_bytes": (True, cur), "_ITerm2ImageMeta__native_anim_max_bytes": (True, dflt)}})
+    for mk, type_of_cls in (("", meta), (",class-of-a-derived-metaclass", meta_sub)):
+        for label, val, ok in (("valid", z3.Int("new_limit"), True), ("zero", z3.IntVal(0), False), ("str", "5", False)):
+            s0 = st.fork()
             if ok:
-                eng.oblige("set-writes-the-global-cell,not-the-class-used-for-access", s, And(kind != "raise", Eq(cell, val), own_clean), kind="post")
-            else:
-                eng.oblige("invalid-value-rejected-without-changing-anything", s, And(kind == "raise" and val_exc(rv) in ("TypeError", "ValueError"), Eq(cell, cur), own_clean), kind="raise")
+                s0.pc.append(val > 0)
+            s0.env.update({fset.args.args[0].arg: cls_a, fset.args.args[1].arg: val})
+            eng.label = f"C20/native_anim_max_bytes.set[{label}{mk}]"
+            eng.genv["type"] = Fn(lambda e, s, a, k, type_of_cls=type_of_cls: [(type_of_cls, s)] if a[0] is cls_a else _b_type(e, s, a, k))
+            for kind, rv, s in run_function(eng, fset, s0):
+                cell = s.H(meta)["_native_anim_max_bytes"]
+                own_clean = "_native_anim_max_bytes" not in s.H(cls_a) and "_native_anim_max_bytes" not in s.H(meta_sub)
+                if ok:
+                    eng.oblige("set-writes-the-global-cell,not-the-class-used-for-access(nor-its-own-metaclass)", s, And(kind != "raise", Eq(cell, val), own_clean), kind="post")
+                else:
+                    eng.oblige("invalid-value-rejected-without-changing-anything", s, And(kind == "raise" and val_exc(rv) in ("TypeError", "ValueError"), Eq(cell, cur), own_clean), kind="raise")
+            eng.genv.pop("type", None)
+    for mk, type_of_cls in (("", meta), ("[class-of-a-derived-metaclass]", meta_sub)):
+        s0 = st.fork()
+        s0.env[fdel.args.args[0].arg] = cls_a
+        eng.label = "C20/native_anim_max_bytes.del" + mk
+        eng.genv["type"] = Fn(lambda e, s, a, k, type_of_cls=type_of_cls: [(type_of_cls, s)] if a[0] is cls_a else _b_type(e, s, a, k))
+        for kind, rv, s in run_function(eng, fdel, s0):
+            eng.oblige("delete-resets-the-global-cell-to-the-default", s,
+                       And(kind != "raise", Eq(s.H(meta)["_native_anim_max_bytes"], dflt), "_native_anim_max_bytes" not in s.H(meta_sub)), kind="post")
+        eng.genv.pop("type", None)
+    # ... and so is the getter
     s0 = st.fork()
-    s0.env[fdel.args.args[0].arg] = cls_a
-    eng.label = "C20/native_anim_max_bytes.del"
-    for kind, rv, s in run_function(eng, fdel, s0):
-        eng.oblige("delete-resets-the-global-cell-to-the-default", s, And(kind != "raise", Eq(s.H(meta)["_native_anim_max_bytes"], dflt)), kind="post")
+    s0.env[fget.args.args[0].arg] = cls_a
+    s0.H(meta_sub)["_native_anim_max_bytes"] = z3.Int("stray_value_on_the_derived_metaclass")
+    eng.label = "C20/native_anim_max_bytes.get[class-of-a-derived-metaclass]"
+    eng.genv["type"] = Fn(lambda e, s, a, k: [(meta_sub, s)] if a[0] is cls_a else _b_type(e, s, a, k))
+    for v, s in eng.ev(fget.body, s0):
+        eng.oblige("get-reads-the-single-global-cell", s, Eq(v, cur), kind="post")
+    eng.genv.pop("type", None)
     # instance level: read-only shadows (a property with only a getter rejects assignment and deletion: descriptor protocol)
     tree, _ = ctx.tree(ITERM)
     for pname in ("native_anim_max_bytes",):
